@@ -113,6 +113,11 @@ func EvInOrigSame(typ string, rel int, body ...fixscan.Field) *Event {
 	return &Event{K: "in", Name: fmt.Sprintf("in(%s@%s,PossDup,122=52)", typ, relName(rel)), In: &In{Type: typ, Rel: rel, OrigSame: true, Body: body}}
 }
 
+// EvSendFailingWrite: an application send during which the k-th write of the file store fails.
+func EvSendFailingWrite(k int) *Event {
+	return &Event{K: "send", Name: fmt.Sprintf("send(D, file write %d fails)", k), Send: []fixscan.Field{{11, "ID"}, {55, "X"}}, FailWrite: k}
+}
+
 func EvRestart() *Event { return &Event{K: "restart", Name: "restart"} }
 
 func EvTick() *Event { return &Event{K: "tick", Name: "tick"} }
